@@ -82,6 +82,25 @@ let handle (cf : cfg) (line : string) : string option =
         let rec take k l = match l with x :: r when k > 0 -> x :: take (k - 1) r | _ -> [] in
         Printf.sprintf "%s %d %s" (hex_of_bytes (take 8 out)) (List.length out) (Printf.sprintf "%Lu" !h) in
       Some (Printf.sprintf "%s %s size=%d" (summary (ser_fmt cf 2 v)) (summary (ser_fmt cf 0 v)) n)
+  | ["RX"; h] ->
+      let raw = bytes_of_hex h in
+      let b = (match mp_binary_of_raw raw with Some p -> "s" ^ hex_of_bytes p | None -> "-") in
+      let e = (match mp_extension_of_raw raw with Some (ty, p) -> Printf.sprintf "%d:s%s" (int_of_n ty) (hex_of_bytes p) | None -> "-") in
+      Some (Printf.sprintf "bin=%s ext=%s" b e)
+  | ["TB"; h] ->
+      let p = bytes_of_hex h in
+      let v = (match mp_binary_raw p with Some raw -> JRaw raw | None -> JNull) in
+      let out = ser_fmt cf 2 v in
+      let back = (match v with JRaw raw -> (match mp_binary_of_raw raw with Some q -> "s" ^ hex_of_bytes q | None -> "-") | _ -> "-") in
+      Some (Printf.sprintf "%s %s %d %d back=%s" (dump v) (hex_of_bytes out) (List.length out) (List.length out) back)
+  | ["TX"; ty; h] ->
+      let p = bytes_of_hex h in
+      let t = int_of_string ty in
+      let tb = n_of_int (if t < 0 then t + 256 else t) in
+      let v = (match mp_extension_raw tb p with Some raw -> JRaw raw | None -> JNull) in
+      let out = ser_fmt cf 2 v in
+      let back = (match v with JRaw raw -> (match mp_extension_of_raw raw with Some (ty2, q) -> Printf.sprintf "%d:s%s" (int_of_n ty2) (hex_of_bytes q) | None -> "-") | _ -> "-") in
+      Some (Printf.sprintf "%s %s %d %d back=%s" (dump v) (hex_of_bytes out) (List.length out) (List.length out) back)
   | ["B"; fmt; cap; d] ->
       let fmt = int_of_string fmt in
       let v = parse_dump cf d in
